@@ -8,6 +8,9 @@ CONSTANTS
   DescCmds = {"cmd", "stop", "_stop"}
   Wires = {"w1", "w2", "w3", "wbad"}
   ValidW = {"w1", "w2", "w3"}
+  ValidWB = {"w2"}
+  Variants = {"a", "b"}
+  OtherDescs <- AnyDescs
   ENames = {"ProtocolError", "NoSuchModule", "NoSuchParameter", "NoSuchCommand", "CommandFailed", "CommandRunning", "ReadOnly", "RangeError", "WrongType", "BadJSON", "CommunicationFailed", "TimeoutError", "HardwareError", "IsBusy", "IsError", "Disabled", "Impossible", "ReadFailed", "OutOfRange", "NotImplemented", "InternalError", "Bogus", "BadValue"}
   KnownE = {"ProtocolError", "NoSuchModule", "NoSuchParameter", "NoSuchCommand", "CommandFailed", "CommandRunning", "ReadOnly", "RangeError", "WrongType", "BadJSON", "CommunicationFailed", "TimeoutError", "HardwareError", "IsBusy", "IsError", "Disabled", "Impossible", "ReadFailed", "OutOfRange", "NotImplemented"}
   Texts = {"t1", "t2", "tp", "tm", "th", "tv"}
